@@ -3,8 +3,9 @@
    the table as ONE iteration order of sync.Map.Range; [route1] = a helper's MountFS branch; [m_rename] =
    mount.FS.Rename; constituents are key-value FS models).  The whole composition is compared with the
    code (result, translated error, exact contents of every constituent) on every run.
-   (* OPEN: C06_cross_mount_rename_all_or_nothing -- m_rename is modelled and exercised, its atomicity is not proved *) *)
-From HP Require Import Base.Prelude Base.Path KV.Types KV.FS KV.Handle KV.Run Compose.Mount Compose.MountProofs.
+   REFUTED (below, the two known findings as theorems): a Rename across two mounts is not all-or-nothing
+   when a call of the destination file system fails. *)
+From HP Require Import Base.Prelude Base.Path KV.Types KV.FS KV.Handle KV.Run KV.Corr Compose.Mount Compose.MountProofs.
 From Coq Require Import Permutation.
 Open Scope nat_scope.
 
@@ -75,3 +76,31 @@ Example C06_cross_mount_rename_witness :
   /\ map (fun e => (fst (fst (fst e)), snd e)) (snapshot (fs_at m2 2)) = [(dot, []); (S "g", [1;2;3]%N)].
 Proof. vm_compute. auto. Qed.
 Print Assumptions C06_cross_mount_rename_witness.
+
+(* ---- Rename across two mounts is copy + Chmod + Remove: REFUTED as an all-or-nothing operation ----
+   [fault_in m i k] makes the k-th next store call of constituent i fail (C14's fault model); this very
+   scenario is also run against the code on every check (C06_xfault_check). *)
+(* the failed call is the Chmod of the copy: Rename fails, the source is still there AND the copy stays behind *)
+Theorem C06_cross_mount_rename_leaves_the_copy_behind_refuted :
+  exists m o n, (exists c, snd (m_rename m o n) = VErr (LinkErr o n c))
+    /\ bytes_at m 2 (S "new") = None
+    /\ bytes_at (fst (m_rename m o n)) 1 (S "x") = Some [1;2;3]%N
+    /\ bytes_at (fst (m_rename m o n)) 2 (S "new") = Some [1;2;3]%N.
+Proof.
+  exists (fault_in two_mounts 2 4), (S "a/x"), (S "b/new"). vm_compute.
+  split; [eexists; reflexivity|]. repeat split; reflexivity.
+Qed.
+Print Assumptions C06_cross_mount_rename_leaves_the_copy_behind_refuted.
+
+(* the failed call is the Write of the copy onto an existing destination: Rename fails and the file that was at the
+   destination is gone *)
+Theorem C06_cross_mount_rename_destroys_the_destination_refuted :
+  exists m o n, (exists c, snd (m_rename m o n) = VErr (LinkErr o n c))
+    /\ bytes_at m 2 (S "old") = Some [9;9]%N
+    /\ bytes_at (fst (m_rename m o n)) 1 (S "x") = Some [1;2;3]%N
+    /\ bytes_at (fst (m_rename m o n)) 2 (S "old") = None.
+Proof.
+  exists (fault_in two_mounts 2 4), (S "a/x"), (S "b/old"). vm_compute.
+  split; [eexists; reflexivity|]. repeat split; reflexivity.
+Qed.
+Print Assumptions C06_cross_mount_rename_destroys_the_destination_refuted.
